@@ -398,6 +398,16 @@ type vpRun struct {
 	badOverride  bool // an overriding publisher was refused by SubStream.Initialize
 	badAttach    bool // a publisher was refused by SubStream.Initialize
 	closedOnline bool // Close while a publisher / the static source was attached
+	servedHeld   bool // a held ADD-READER request was served by the ready event (reader attached out of the hold list)
+	closeTried   bool // a close-after timer was given its chance to expire while such a reader was still attached
+	closeTriedRd bool // ... while any reader was attached
+	stoppedQuiet bool // the demand was stopped by its close-after timer (after the last reader left)
+
+	qReader    map[int]int  // AddReader request -> reader
+	heldQ      map[int]bool // AddReader requests put on hold
+	att        map[int]bool // readers attached, as the driver sees it from the answers
+	attServed  map[int]bool // ... attached out of the hold list
+	justServed bool         // the last step served a held reader
 
 	subOwner map[uintptr]string // sub-streams handed out by the path -> Coq name of their owner
 	subKeep  []*stream.SubStream
@@ -792,6 +802,49 @@ func (h *vpRun) step(o vpOp) {
 	if o.kind == vpClose {
 		h.curPub = 0
 	}
+	// readers attached (from the answers), held ADD-READER requests and who was served out of the hold list
+	if h.qReader == nil {
+		h.qReader, h.heldQ, h.att, h.attServed = map[int]int{}, map[int]bool{}, map[int]bool{}, map[int]bool{}
+	}
+	h.justServed = false
+	if o.kind == vpAddReader {
+		h.qReader[o.q] = o.a
+	}
+	if o.kind == vpRemoveReader {
+		delete(h.att, o.a)
+		delete(h.attServed, o.a)
+	}
+	if o.kind == vpTimerFire && (o.a == 1 || o.a == 3) && !h.closed {
+		if len(h.attServed) > 0 {
+			h.closeTried = true
+		}
+		if len(h.att) > 0 {
+			h.closeTriedRd = true
+		}
+		for _, e := range evs {
+			if strings.HasPrefix(e.txt, "fired(") && len(h.att) == 0 {
+				h.stoppedQuiet = true
+			}
+		}
+	}
+	for _, e := range evs {
+		var q, g, rd int
+		if n, _ := fmt.Sscanf(e.txt, "answer(q%d)=g%d", &q, &g); n == 2 {
+			if r, ok := h.qReader[q]; ok {
+				h.att[r] = true
+				if h.heldQ[q] {
+					h.servedHeld, h.justServed = true, true
+					h.attServed[r] = true
+				}
+			}
+			delete(h.heldQ, q)
+		} else if n, _ := fmt.Sscanf(e.txt, "answer(q%d)=err", &q); n == 1 {
+			delete(h.heldQ, q)
+		} else if n, _ := fmt.Sscanf(e.txt, "readerClosed(r%d)", &rd); n == 1 {
+			delete(h.att, rd)
+			delete(h.attServed, rd)
+		}
+	}
 	if (o.kind == vpDescribe || o.kind == vpAddReader) && !h.closed {
 		answered := false
 		for _, e := range evs {
@@ -801,6 +854,9 @@ func (h *vpRun) step(o vpOp) {
 		}
 		if !answered {
 			h.held = true
+			if o.kind == vpAddReader {
+				h.heldQ[o.q] = true
+			}
 		}
 	}
 	h.steps = append(h.steps, cqPair(cqPair(o.coq(), cqList(coqs)), sub))
@@ -845,6 +901,17 @@ func (h *vpRun) class() string {
 	}
 	if h.closedOnline {
 		fl += "C"
+	}
+	if h.servedHeld {
+		fl += "S"
+	}
+	if h.closeTried {
+		fl += "K"
+	} else if h.closeTriedRd {
+		fl += "k"
+	}
+	if h.stoppedQuiet {
+		fl += "Q"
 	}
 	if fl == "" {
 		return h.cf.kind()
@@ -1000,6 +1067,18 @@ func vpScripts() []vpScript {
 		{"no-override", all(vpConf{}), []vpOp{AP(1), AR(1), AP(2), AP(1), RP(2), RP(1), AP(2), CL, AP(3)}},
 		{"max-readers", all(vpConf{maxr: 2}), []vpOp{AP(1), AR(1), AR(1), AR(2), AR(3), RR(1), AR(3), AR(1), CL}},
 		{"max-readers-held", all(vpConf{maxr: 2, hDemand: true}), []vpOp{AR(1), AR(2), AR(3), AR(1), AP(1), RR(1), AR(3), CL}},
+		// demand arriving as held ADD-READER requests (HLS / WebRTC / RTMP / SRT readers): served by the ready
+		// event, the reader stays while the close-after timer gets its chance, then leaves and the timer runs
+		{"held-reader-stays", od, []vpOp{AR(1), AP(1), TF(3), D(), TF(3), RR(1), TF(3), AR(2), CL}},
+		{"held-readers-and-describe", od, []vpOp{D(), AR(1), AR(2), AP(1), TF(3), RR(1), TF(3), RR(2), TF(3), AR(3), TF(2), CL}},
+		{"held-reader-stays-static", all(vpConf{static: true, sod: true}), []vpOp{AR(1), SR(), TF(1), D(), TF(1), RR(1), TF(1), AR(2), CL}},
+		{"held-readers-max", all(vpConf{maxr: 1, hDemand: true, hUnDemand: true}), []vpOp{AR(1), AR(2), AP(1), TF(3), RR(2), TF(3), RR(1), TF(3), CL}},
+		// a reader arrives while the close-after timer is armed (served describe): the timer must be disarmed
+		{"reader-while-closing", od, []vpOp{D(), AP(1), AR(1), TF(3), RR(1), TF(3), CL}},
+		{"reader-while-closing-static", all(vpConf{static: true, sod: true}), []vpOp{D(), SR(), AR(1), TF(1), RR(1), TF(1), CL}},
+		// one of two readers leaves: no close-after timer yet
+		{"one-reader-leaves", od, []vpOp{AR(1), AP(1), AR(2), RR(1), TF(3), RR(2), TF(3), CL}},
+		{"one-reader-leaves-static", all(vpConf{static: true, sod: true}), []vpOp{AR(1), SR(), AR(2), RR(2), TF(1), RR(1), TF(1), CL}},
 		{"static-ondemand", all(vpConf{static: true, sod: true}), []vpOp{D(), AR(1), SR(), RR(1), TF(1), AR(1), TF(0), AR(2), SR(), SN, AR(3), CL}},
 		{"static", all(vpConf{static: true}), []vpOp{D(), SR(), AR(1), AR(2), SN, SR(), AP(1), AR(1), CL}},
 		// alwaysAvailable: the stream exists from creation; publishers come and go as sub-streams
@@ -1051,6 +1130,16 @@ func vpRunHistory(idx int, seed uint64, scripts []vpScript) vpResult {
 		n := 5 + r.Intn(36)
 		for i := 0; i < n && !h.closed && h.problem == ""; i++ {
 			h.step(h.randOp(r))
+			// the close-after timer gets its chance to expire right after held readers were served by the
+			// ready event (1 in 2) and, now and then, whenever readers are attached on an on-demand path
+			if (h.cf.hDemand || h.cf.sod) && !h.closed &&
+				((h.justServed && r.Chance(1, 2)) || (len(h.att) > 0 && r.Chance(1, 10))) {
+				ct := 3
+				if h.cf.sod {
+					ct = 1
+				}
+				h.step(vpOp{kind: vpTimerFire, a: ct})
+			}
 			if r.Chance(1, 60) {
 				h.step(vpOp{kind: vpClose})
 			}
@@ -1134,6 +1223,19 @@ func TestVerifPathSM(t *testing.T) {
 		ks = append(ks, fmt.Sprintf("%s=%d", k, v))
 	}
 	sort.Strings(ks)
+	// on-demand demand classes: S = held ADD-READER served by the ready event, K = close-after timer given its
+	// chance while such a reader was attached, k = ... while another reader was attached, Q = demand stopped by
+	// the close-after timer with no reader attached
+	fc := map[rune]int{}
+	for _, res := range results {
+		if i := strings.IndexByte(res.class, ':'); i >= 0 {
+			for _, c := range res.class[i+1:] {
+				fc[c]++
+			}
+		}
+	}
+	ks = append(ks, fmt.Sprintf("| held-reader-served(S)=%d close-timer-tried-while-served-reader-attached(K)=%d close-timer-tried-while-reader-attached(k)=%d stopped-by-close-timer-without-readers(Q)=%d",
+		fc['S'], fc['K'], fc['k'], fc['Q']))
 	out.extra["kinds"] = strings.Join(ks, " ")
 	fmt.Fprintln(os.Stderr, "[verif pathsm] histories:", n, strings.Join(ks, " "))
 	if len(problems) > 0 {
